@@ -64,6 +64,7 @@ PROPERTY SaturatedStays
   AllowIllegit = {"TRUE" if p.get('illegit') else "FALSE"}
   Channels <- cChannels
   MaxReloads = {p.get('maxreloads', 1)}
+  Queries = {"TRUE" if p.get('queries') else "FALSE"}
 INIT Init
 NEXT Next
 VIEW {"ViewH" if p.get("histview") else "View"}
@@ -139,6 +140,9 @@ class Ctx:
             return s.remove(key, o[3])
         if o[0] == "clear":
             return s.clear()
+        if o[0] == "chk":
+            key = self.rk(o[2])
+            return s.check_alt(s.hashes(key)) if self.alt(o) else s.check(key)
         if o[0] == "join":
             return s.join(objs["B" if o[1] == "A" else "A"])
         if o[0] == "rt":
@@ -432,11 +436,16 @@ def profiles(tier, seed, light=False, focus=None):
             P.append(dict({**base, **tiny}, W=W, D=D, H=H, ntables=4, maxdepth=4, whos=["A"]))
         P.append(dict({**base, **tiny}, W=2, D=1, H=3, ntables=8, maxdepth=3, amts=[2, 4]))
     # every HISTORY (no state merging) of the smallest tables: what the code does after clear() / reload for every preceding history
-    hv = dict(base, W=1, D=1, H=2, ntables=1, whos=["A"], histview=True, maxreloads=1)
-    P.append(dict(hv, kind="hh", nh=1, keys=["a", "b"], amts=[1, 2], maxdepth=5, maxtrue=5))
-    P.append(dict(hv, kind="st", thr=3, keys=["a", "b"], amts=[1, 3], maxdepth=4 if tier == "quick" else 5, maxtrue=6))
+    # and queries are operations of those histories (a memo of the last answer only shows in what happens after the query)
+    hv = dict(base, W=1, D=1, H=2, ntables=1, whos=["A"], histview=True, maxreloads=1, queries=True)
+    P.append(dict(hv, kind="hh", nh=1, keys=["a", "b"], amts=[1, 2], maxdepth=5, maxtrue=5, queries=False))
+    P.append(dict(hv, kind="st", thr=3, keys=["a", "b"], amts=[1, 3], maxdepth=4 if tier == "quick" else 5, maxtrue=6, queries=False))
+    P.append(dict(hv, kind="cms", W=2, D=1, H=3, keys=["a", "b"], amts=[2], maxdepth=5, maxtrue=4, channels=["bytes"], ntables=4))   # colliding and disjoint keys
+    P.append(dict(hv, kind="hh", nh=1, keys=["a", "b"], amts=[1], maxdepth=5, maxtrue=5))
     if tier != "quick":
-        P.append(dict(hv, kind="hh", nh=2, keys=["a", "b", "c"], amts=[1, 2], maxdepth=5, maxtrue=5, W=2, H=3))
+        P.append(dict(hv, kind="hh", nh=2, keys=["a", "b", "c"], amts=[1, 2], maxdepth=5, maxtrue=5, W=2, H=3, queries=False))
+        P.append(dict(hv, kind="cms", W=2, D=2, H=3, keys=["a", "b"], amts=[1, 2], maxdepth=5, maxtrue=4, channels=["bytes"]))
+        P.append(dict(hv, kind="st", thr=2, keys=["a", "b"], amts=[1, 2], maxdepth=5, maxtrue=5))
     solo2 = dict(base, whos=["A"], maxdepth=4 if tier == "quick" else 5, maxtrue=3, H=0, ntables=1)
     for i, st in enumerate(["fnv", "md5", "sha256", "deco_int", "handwritten"] if tier == "quick" else ["fnv", "md5", "sha256", "deco_int", "deco_bytes", "handwritten"]):
         W, D = [(2, 2), (3, 2), (5, 3)][i % 3]
@@ -474,7 +483,7 @@ def run(focus, tier, seed):
     total = Tally(focus)
     jobs = []
     for p in profiles(tier, seed, focus in ("C05", "C14", "C19"), focus):
-        if (focus in FOCUS_FILTER and not FOCUS_FILTER[focus](p)) or (p.get("histview") and focus not in ("C19", "C17", "C14")):
+        if (focus in FOCUS_FILTER and not FOCUS_FILTER[focus](p)) or (p.get("histview") and focus not in ("C19", "C17", "C14", "C02")):
             continue
         tabs = p["tables"]
         const = {k: v for k, v in p.items() if k != "tables"}
